@@ -221,6 +221,17 @@ func newSite(kind string, p token.Pos, fn string) int {
 	return id
 }
 
+func isAnyPkgCall(e ast.Expr, want map[string][]string) (*ast.SelectorExpr, string, string, bool) {
+	for pkg, names := range want {
+		for _, n := range names {
+			if sel, ok := isPkgCall(e, pkg, n); ok {
+				return sel, n, pkg, true
+			}
+		}
+	}
+	return nil, "", "", false
+}
+
 func isTimeAfter(c *ast.CallExpr) bool {
 	_, ok := isPkgCall(c.Fun, "time", "After")
 	return ok
@@ -406,6 +417,13 @@ func rewriteFile(fc *fileCtx, pkg *types.Package) {
 			} else if sel, ok := isPkgCall(x.Fun, "os", "Stat"); ok {
 				fc.replace(sel.Pos(), sel.End(), "verifsim.Stat")
 				removed["os"]++
+				sum.DiskSites++
+			} else if sel, name, pkg, ok := isAnyPkgCall(x.Fun, map[string][]string{
+				"os":        {"OpenFile", "Lstat", "ReadFile", "WriteFile", "Remove", "Rename"},
+				"io/ioutil": {"ReadFile", "WriteFile"},
+			}); ok {
+				fc.replace(sel.Pos(), sel.End(), "verifsim."+name)
+				removed[pkg]++
 				sum.DiskSites++
 			} else if sel, ok := x.Fun.(*ast.SelectorExpr); ok && syncMethod(sel) != "" {
 				switch m := syncMethod(sel); m {
